@@ -450,7 +450,7 @@ class KlongInterpreter():
             ii, aa = peek_adverb(t, i)
             if aa:
                 i,a = self._apply_adverbs(t, ii, a, aa, arity=1)
-        elif self._is_monad(a):
+        elif self._is_monad(a) or (self._is_dyad(a) and peek_adverb(t, i)[1] is not None):
             a.arity = 1
             ii, aa = peek_adverb(t, i)
             if aa:
